@@ -1,3 +1,5 @@
+//go:debug randseednop=0
+
 // C05 — block/metadata store (database/ffldb) is atomic, isolated, prefix-durable
 // and byte-faithful.
 //
@@ -15,6 +17,7 @@ package main
 
 import (
 	"fmt"
+	"math/rand"
 	"os"
 	"runtime/debug"
 	"runtime/pprof"
@@ -67,7 +70,7 @@ func main() {
 	r.Assume("treap node priorities come from math/rand (seeded by the package); tree shapes are not enumerated, only contents and iteration order are compared")
 
 	viols := &violSet{}
-	budget := 110 * time.Second
+	budget := 175 * time.Second
 	if r.Thorough() {
 		budget = 14*time.Minute + 30*time.Second
 	}
@@ -89,9 +92,9 @@ func main() {
 
 	parts := []part{
 		{"probes", partProbes, 5, 5},
-		{"treap", partTreap, 20, 90},
-		{"seq", partSeq, 40, 420},
-		{"fault", partFault, 20, 120},
+		{"treap", partTreap, 30, 90},
+		{"seq", partSeq, 85, 420},
+		{"fault", partFault, 25, 120},
 		{"crash", partCrash, 25, 240},
 		// ------------------------------------------------------------------
 		// PART (d) GOES HERE: isolation under thread schedules (vsched).
@@ -103,18 +106,23 @@ func main() {
 	}
 	only := os.Getenv("C05_PARTS") // development aid: comma separated part names
 	times := map[string]float64{}
+	var leftover time.Duration
 	for _, p := range parts {
 		if only != "" && !strings.Contains(","+only+",", ","+p.name+",") {
 			continue
 		}
 		t0 := time.Now()
-		slice := time.Duration(r.Pick(p.quickS, p.thorS)) * time.Second
+		// a part may use its own slice plus whatever earlier parts left over
+		slice := time.Duration(r.Pick(p.quickS, p.thorS))*time.Second + leftover
 		if os.Getenv("C05_BUDGET_S") != "" {
 			slice = budget
 		}
 		partDeadline = t0.Add(slice)
 		p.run(r, viols)
 		partDeadline = time.Time{}
+		if leftover = slice - time.Since(t0); leftover < 0 {
+			leftover = 0
+		}
 		times[p.name] = time.Since(t0).Seconds()
 	}
 	r.Set("part_wall_seconds", times)
@@ -125,14 +133,35 @@ func main() {
 		keys = append(keys, k)
 	}
 	sort.Strings(keys)
+	// The treaps draw node priorities from math/rand, so a defect can depend on the
+	// (random) tree shape.  Every violation is therefore confirmed under FIXED seeds
+	// (sequentially, nothing else running): it is printed only if some seed
+	// reproduces it three times in a row; the seed becomes part of the replay file.
 	for _, k := range keys {
 		v := viols.m[k]
-		for i := 0; i < 3; i++ {
-			got := replayKey(v.replay)
-			if got != v.key {
-				cleanupAll()
-				r.Broken("violation %q did not reproduce deterministically (run %d gave %q): %s", v.key, i+1, got, v.what)
+		confirmed := false
+		var seen []string
+		for seed := int64(1); seed <= 8 && !confirmed; seed++ {
+			v.replay.Seed = seed
+			ok := true
+			for i := 0; i < 3; i++ {
+				got := replayKey(v.replay)
+				if got != v.key {
+					ok = false
+					seen = append(seen, fmt.Sprintf("seed %d run %d: %q", seed, i+1, got))
+					if i > 0 {
+						// same seed, different verdicts: real non-determinism
+						cleanupAll()
+						r.Broken("violation %q flips under a fixed seed (%v): %s", v.key, seen, v.what)
+					}
+					break
+				}
 			}
+			confirmed = ok
+		}
+		if !confirmed {
+			cleanupAll()
+			r.Broken("violation %q did not reproduce under any fixed seed (%v): %s", v.key, seen, v.what)
 		}
 		r.Violation(v.key, v.what, v.replay)
 	}
@@ -146,6 +175,9 @@ func main() {
 var lastReplayDetail string
 
 func replayKey(rp replayObj) string {
+	if rp.Seed != 0 {
+		rand.Seed(rp.Seed)
+	}
 	switch rp.Part {
 	case "a":
 		d, err := runReplaySeq(rp)
